@@ -48,6 +48,8 @@ pub struct Ord {
     /// a projection / join / windowed step happened since the sort (a take after that hits
     /// finding C07-sort-column-pruned-before-take)
     pub dirty: bool,
+    /// some key of the sort in effect is a computed expression
+    pub computed_key: bool,
 }
 
 #[derive(Clone, Copy, Debug, PartialEq, Eq)]
@@ -99,6 +101,7 @@ pub struct GenCfg {
     ///  mul_right       `a * <expr>` with a non-atomic / computed right operand (C02-mul-right-operand-parens)
     ///  wild_except     `select !{..}` over a wildcard frame (wrong without EXCLUDE: C05-wildcard-helper-leak);
     ///                  with this hazard every program uses wildcard relations
+    ///  computed_key_join  a join while a sort with a computed key is in effect (C16-computed-sort-key-lowered-into-subpipeline)
     ///  wild_dup_join   a join of two wildcard relations that share a column name, not projected afterwards
     ///                  (C07-wildcard-join-duplicate-names); implied by the wild_except hazards
     ///  wild_except_twice   a second `select !{..}` over a wildcard frame (C05-consecutive-exclusions-forget-first)
@@ -147,6 +150,8 @@ pub struct Gen<'t, 'd> {
     /// (sorted let-table, second let-table reading it): the main pipeline reads the first, takes a
     /// slice and joins the second, so that one sorted relation has two live readers
     pub main_scaffold: Option<(usize, usize)>,
+    /// the bottom of the last append reads a let-table
+    pub append_let_bottom: bool,
     pub force_right_let: Option<usize>,
     cur_src_let: bool,
     after_append: bool,
@@ -246,6 +251,7 @@ impl<'t, 'd> Gen<'t, 'd> {
             n_wild_except: 0,
             dup_append: false,
             main_scaffold: None,
+            append_let_bottom: false,
             force_right_let: None,
             cur_src_let: false,
             after_append: false,
@@ -1339,6 +1345,7 @@ impl<'t, 'd> Gen<'t, 'd> {
             one_numeric_key: one_numeric,
             key_dropped: false,
             dirty: false,
+            computed_key: keys.iter().any(|k| !matches!(k.expr, Expr::Col(_))),
         };
         Some(Step::Sort(keys))
     }
@@ -1837,6 +1844,7 @@ impl<'t, 'd> Gen<'t, 'd> {
         let tname = self.db.tables[ti].name.clone();
         let mut tf = self.table_frame(&tname, &tname, true);
         let mut bottom_src = SrcKind::Table(tname);
+        self.append_let_bottom = false;
         // sometimes the bottom reads a let-table (which may also be read elsewhere in the program)
         if !self.lets.is_empty() && self.t.chance(1, 3) {
             let li = self.t.choose(self.lets.len());
@@ -1844,6 +1852,7 @@ impl<'t, 'd> Gen<'t, 'd> {
             if lf.wild_rels.is_empty() && !lf.cols.is_empty() {
                 let lname = self.lets[li].name.clone();
                 // same arity and column types: the let-table itself can be the operand (`append l0`)
+                self.append_let_bottom = true;
                 let same_shape = lf.cols.len() == frame.cols.len() && lf.cols.iter().zip(&frame.cols).all(|(a, b)| a.ty == b.ty);
                 if same_shape && self.t.chance(2, 3) {
                     for c in frame.cols.iter_mut() {
@@ -1895,6 +1904,7 @@ impl<'t, 'd> Gen<'t, 'd> {
         // sometimes the bottom pipeline is declared as a let-table of its own and appended by
         // name (`append la0`); other parts of the program may read the same let-table
         if self.cfg.allow_lets && matches!(bottom_src, SrcKind::Table(_)) && self.t.chance(1, 4) {
+            self.append_let_bottom = true;
             let lname = format!("la{}", self.lets.len());
             let lf = Frame {
                 cols: items
@@ -1998,6 +2008,11 @@ impl<'t, 'd> Gen<'t, 'd> {
                 w[6] = 0;
                 w[7] = 0;
             }
+            if ord.ordered && ord.computed_key && !self.haz("computed_key_join") {
+                // a computed sort key in effect at a join is lowered into the wrong relation
+                // (finding C16-computed-sort-key-lowered-into-subpipeline)
+                w[5] = 0;
+            }
             if ord.ordered && ord.key_dropped && !self.haz("dropped_key_join") {
                 // sort key dropped by a select, then a join: finding C03-dropped-sort-key-join
                 w[5] = 0;
@@ -2010,13 +2025,17 @@ impl<'t, 'd> Gen<'t, 'd> {
                 w[9] = 0;
             }
             if self.after_append && !self.haz("append_free") {
-                // after an append only row-level steps (no projection / aggregation / join)
-                w[0] = 0;
+                // after an append (of a simple bottom onto a simple top) no join and no further append
                 w[5] = 0;
-                w[6] = 0;
-                w[7] = 0;
                 w[9] = 0;
-                w[10] = 0;
+                if self.append_let_bottom {
+                    // the bottom reads a let-table: later projections / aggregations prune the top
+                    // only (finding C01-append-pruning)
+                    w[0] = 0;
+                    w[6] = 0;
+                    w[7] = 0;
+                    w[10] = 0;
+                }
             }
             if self.wild_prog && ord.ordered && !self.haz("wild_helpers") {
                 // a sort key dropped later becomes a helper column that leaks through `*`
@@ -2104,6 +2123,7 @@ impl<'t, 'd> Gen<'t, 'd> {
                 }
                 5 => {
                     if ord.ordered && ord.key_dropped { self.touch("dropped_key_join"); }
+                    if ord.ordered && ord.computed_key { self.touch("computed_key_join"); }
                     let js = self.gen_join(frame, ord, depth);
                     steps.extend(js);
                     None
